@@ -1847,6 +1847,13 @@ def run(chk):
     chk.expect(bad6 is None, 'R10.14', 'blob-writer-valid-modules', 'the data-segment blob writer: %s' % bad6, 'wasmCWriteDataSegmentsFromSection:blob',
                detail_ok='modules with empty and non-empty segments are written completely, without abort')
     chk.floor('R10.14', 1)
+    # R10.15: no abort / failed assertion on valid input in dead code: every instruction in dead code is skipped with the immediates of
+    # its encoding consumed; dead branches whose label depth reaches beyond the live labels included (rule shared with C03 R03.3)
+    from . import c03 as _c03
+    it15 = _emit.make_interp(tus6)
+    n_before = len(chk.obligations)
+    _c03.check_ignore_equivalence(chk, it15, rule_dead='R10.15')
+    chk.floor('R10.15', 4)
     chk.extra['sites'] = dict(sprintf=n_fmt, copies=n_cp, raw_buffer=n_buf, nullable_sinks=n_null,
                               tainted_locations=sorted(map(str, nf.tainted)), seed_evidence={str(k): v[:3] for k, v in just.items()})
     chk.floor('R10.1', 10)
